@@ -113,9 +113,11 @@ Definition blockattributes_parse (attrs : str) : M bool :=
                   let css := if nonempty css && negb (ends_with [59] css) then css ++ [59] else css in
                   set_css s (strip (css ++ [32] ++ strip (grp_s m2 3))))
            else ret tt) ;;;
-          s <- get ;;
-          (if opt_nonempty (grp m2 4) && attrs_allowed (s_mode s)
-           then modify (fun s => set_attrs s (strip (p_attrs s ++ [32] ++ strip (drop_last (tl (grp_s m2 4))))))
+          (* `if m2[4] and not options.isSafeModeNz():` -- the mode is read at this point *)
+          (if opt_nonempty (grp m2 4)
+           then modify (fun s => if attrs_allowed (s_mode s)
+                                 then set_attrs s (strip (p_attrs s ++ [32] ++ strip (drop_last (tl (grp_s m2 4)))))
+                                 else s)
            else ret tt) ;;;
           (if opt_nonempty (grp m2 5)
            then s <- get ;;
@@ -148,9 +150,10 @@ Definition injectHtmlAttributes (tag : str) (consume : bool) : M str :=
            modify (fun s => set_id s id) ;;;
            let has_id := match re_search re_blockattributes_injectHtmlAttributes_1 result with
                          | Some _ => true | None => false end in
-           (if has_id || mem id (s_ids s)
-            then log_msg ($"duplicate 'id' attribute: " ++ id)
-            else modify (fun s => set_ids s (id :: s_ids s))) ;;;
+           (* `if has_id or id in ids: errorCallback(...) else: ids.insert(0, id)` as one step *)
+           modify (fun s => if has_id || mem id (s_ids s)
+                            then set_log s ((s_cb s, $"duplicate 'id' attribute: " ++ id) :: s_log s)
+                            else set_ids s (id :: s_ids s)) ;;;
            ret (if has_id then attrs else attrs ++ $" id=""" ++ id ++ [34])
          else ret attrs) ;;
       (* css *)
@@ -210,23 +213,27 @@ Definition setOption_safeMode (value : str) : M unit :=
   | PInt n =>
       if mode_out_of_range n then log_msg msg else modify (fun s => set_mode s n)
   | _ =>
-      (* the except branch logs and falls through with n = 0 *)
-      log_msg msg ;;;
-      (if mode_out_of_range 0 then log_msg msg else modify (fun s => set_mode s 0%Z))
+      (* the except branch reports the value and returns *)
+      log_msg msg
   end.
 
+(* `value is None or value == False or value == 'false'` *)
+Definition reset_is_false (value : pyval) : bool :=
+  match value with
+  | PyNone => true | PyBool false => true | PyInt 0 => true
+  | PyFloat _ true _ => true
+  | PyStr v => str_eqb v $"false"
+  | _ => false end.
+(* `value == True or value == 'true'` *)
+Definition reset_is_true (value : pyval) : bool :=
+  match value with
+  | PyBool true => true | PyInt 1 => true | PyFloat _ _ true => true
+  | PyStr v => str_eqb v $"true"
+  | _ => false end.
+
 Definition setOption_reset (value : pyval) : M unit :=
-  let is_false := match value with
-                  | PyNone => true | PyBool false => true | PyInt 0 => true
-                  | PyFloat _ true _ => true
-                  | PyStr v => str_eqb v $"false"
-                  | _ => false end in
-  let is_true := match value with
-                 | PyBool true => true | PyInt 1 => true | PyFloat _ _ true => true
-                 | PyStr v => str_eqb v $"true"
-                 | _ => false end in
-  if is_false then ret tt
-  else if is_true then modify document_init
+  if reset_is_false value then ret tt
+  else if reset_is_true value then modify document_init
   else log_msg ($"illegal reset API option value: " ++ py_str value).
 
 (* options.setOption as called from a document (.name = 'value') *)
